@@ -91,6 +91,20 @@ CLAIMS["C17"] = dict(
               "Documentation tables are compared through the committed transcription specs/rule_config.json (5 corrections with reasons). "
               "NOT covered: validators' predicates against the prose, YAML/TOML parsing.")
 
+CLAIMS["C11"] = dict(
+    text="Proof of the suppression half: log_scan_failure prints and counts a failure iff neither the line map nor any range covers "
+         "(line, lower-cased rule id) - inclusive at both ends; disable-next-line adds, for line+1 and no other key, exactly the normalised ids of "
+         "every known identifier in the list (completeness for every list entry, soundness with an explicit ghost witness), unknown or blank "
+         "entries are reported and do not stop the others; disable-num-lines N: a missing / non-integer / <1 count or a missing list gives one "
+         "error and no range, otherwise exactly one range [line+1, line+N] with the same id-set semantics is appended and earlier ranges are "
+         "untouched; an unknown command suppresses nothing; compile_pragmas compiles every stored line and resolves identifiers against ALL "
+         "registered rules; look_for_pragmas stores a line only at container depth 0 without leading whitespace, under +line/-line, and "
+         "changes nothing otherwise; the pragma token is compiled before any token is delivered and is never delivered (C14); the scanning "
+         "primitives used are proved index-safe and terminating; the pragma-line map has a single writer and is re-created per document.",
+    note=TB + "str.split/strip/lower/rstrip are uninterpreted functions with length facts only: the clauses speak about 'the entries of the "
+              "split list, stripped and lower-cased', not about characters. int() of the count is an uninterpreted partial function. "
+              "NOT covered: 'the document parses as if the pragma line had been deleted' (parser-level), the pragma line shift in fix mode.")
+
 NA = {
     "C01": "totality of the ~60 kLoC parser is a postcondition of TokenizedMarkdown.transform; no contract chain within reach without a Python deductive verifier (DESIGN.md 7)",
     "C02": "round-trip of parser + 5 kLoC regenerator needs the token stream specified as an encoding of the document (C03+C04+C05 in full) first (DESIGN.md 7)",
